@@ -59,6 +59,9 @@ def configs(tier):
               dict(strategy='dimwise', D=2, lmin=1, lmax=2, func='cornerpeak', norm=np.inf, zero_ref=True)]
     else:
         L.append(dict(strategy='dimwise', D=2, lmin=1, lmax=2, func='cornerpeak', norm=np.inf, zero_ref=True))
+    # the other error calculators shipped for these strategies
+    L.append(dict(strategy='cell', D=2, lmin=2, lmax=2, func='cornerpeak', norm=np.inf, ec='ErrorCalculatorSurplusCellPunishDepth'))
+    L.append(dict(strategy='dimwise', D=2, lmin=1, lmax=2, func='cornerpeak', norm=2, ec='ErrorCalculatorSingleDimVolumeGuidedPunishedDepth'))
     L.append(dict(strategy='dimwise', D=2, lmin=1, lmax=2, func='tiny', norm=np.inf))
     L.append(dict(strategy='extendsplit', D=2, lmin=1, lmax=2, func='tiny', norm=2))
     L.append(dict(strategy='extendsplit', D=2, lmin=1, lmax=2, func='huge', norm=np.inf))
@@ -73,7 +76,7 @@ def run(tier, seed):
     nprobe = 5 if tier == 'quick' else 7
     nlims = 14 if tier == 'quick' else 40
     for c in configs(tier):
-        name = '%s D=%d (%d,%d) %s norm=%s%s' % (c['strategy'], c['D'], c['lmin'], c['lmax'], c['func'], c['norm'], ' zero-ref' if c.get('zero_ref') else '')
+        name = '%s D=%d (%d,%d) %s norm=%s%s%s' % (c['strategy'], c['D'], c['lmin'], c['lmax'], c['func'], c['norm'], ' zero-ref' if c.get('zero_ref') else '', ' ' + c['ec'] if c.get('ec') else '')
         try:
             # probe: never stop by error, stop after nprobe evaluations (via a growing maximum)
             probe_events = None
@@ -86,6 +89,10 @@ def run(tier, seed):
             lims_list = DP.limit_grid(probe_events, rng, nlims)
         except impl.Timeout:
             rep.exclude('%s: probe run timed out' % name)
+            continue
+        except Exception as ex:
+            rep.violation('C13_NoException', {'strategy': c['strategy'], 'exception': type(ex).__name__, 'error_calculator': c.get('ec', 'default'), 'probe': True},
+                          {'config': str(c), 'exception': repr(ex)}, what='%s: an adaptive run raised %r' % (name, ex))
             continue
         for lims in lims_list:
             try:
